@@ -122,4 +122,18 @@ Definition coo_apply (ts : list triple) (gate : N -> N -> R) (psi : list bool ->
   fun b => fold_left (fun acc (t : triple) =>
       let '(row, col, (r, c)) := t in
       if bits_eqb row b then radd acc (rmul (gate r c) (psi col)) else acc) ts rO.
+
+(* BinaryBackend.statevector (lines 250-293): optimise at level 4 with qubit_layout = range(nqubit), then apply the
+   operator built for each item.  entry m r c = m[r, c]. *)
+Variable M : Type.
+Variables (mmul mkron : M -> M -> M) (mid2 mid4 : M).
+Variable entry : M -> N -> N -> R.
+Definition bin_statevector (nq : nat) (items : list (M * list Z)) (psi : list bool -> R) : res (list bool -> R) :=
+  match items with
+  | [] => Err AssertionError
+  | _ =>
+    opt <- optimize M mmul mkron mid2 mid4 4 nq items ;;
+    fold_left (fun acc it => p <- acc ;; op <- item_operator nq (snd it) ;;
+                             Ok (coo_apply (snd op) (entry (fst it)) p)) opt (Ok psi)
+  end.
 End Apply.
